@@ -522,6 +522,12 @@ func verifLemmaSchemaOrStringArrayLookup(s SchemaOrStringArray, token string) (i
 	return v, err, b
 }
 
+// SchemaOrArray: in the tuple form a numeric token selects the element at that index, in the single-schema form every
+// token that is not a number goes to the schema
+func verifLemmaSchemaOrArrayLookup(s SchemaOrArray, token string) (interface{}, error) {
+	return s.JSONLookup(token)
+}
+
 func verifLemmaPathItemLookup(p PathItem, token string) (interface{}, error, []byte) {
 	v, err := p.JSONLookup(token)
 	b, merr := p.MarshalJSON()
